@@ -446,15 +446,27 @@ theorem powerFits_of_recs (s0 t : State) (h : Nat) (hp : t.p = s0.p)
     funext o; simp [Function.comp, power, (hrel o).2.2.2.1]
   rw [this]; exact hf
 
-theorem createOracleSetRequest_frame (s : State) (h : Nat) (hf : PowerFits s) :
-    ∃ s', createOracleSetRequest s h = .ok s' ∧ OuterCore s s' ∧ s'.oracles = s.oracles := by
+theorem createOracleSetRequest_frame (s : State) (h : Nat) (s' : State) (he : createOracleSetRequest s h = .ok s') :
+    OuterCore s s' ∧ s'.oracles = s.oracles := by
+  unfold createOracleSetRequest at he
+  cases hcur : currentMembers s with
+  | error e => rw [hcur] at he; simp at he
+  | ok cur =>
+    rw [hcur] at he
+    simp only at he
+    by_cases hc : (needOracleSet s h cur && !cur.isEmpty) = true
+    · rw [if_pos hc] at he; injection he with he; subst he; exact ⟨by constructor <;> rfl, rfl⟩
+    · rw [if_neg hc] at he; injection he with he; subst he; exact ⟨OuterCore.refl s, rfl⟩
+
+theorem createOracleSetRequest_total (s : State) (h : Nat) (hf : PowerFits s) :
+    ∃ s', createOracleSetRequest s h = .ok s' := by
   obtain ⟨cur, hcur⟩ := currentMembers_ok s hf
   unfold createOracleSetRequest
   rw [hcur]
   simp only
   by_cases hc : (needOracleSet s h cur && !cur.isEmpty) = true
-  · rw [if_pos hc]; exact ⟨_, rfl, by constructor <;> rfl, rfl⟩
-  · rw [if_neg hc]; exact ⟨_, rfl, OuterCore.refl s, rfl⟩
+  · rw [if_pos hc]; exact ⟨_, rfl⟩
+  · rw [if_neg hc]; exact ⟨_, rfl⟩
 
 theorem prune_frame (s : State) (h : Nat) : OuterCore s (pruneOracleSet s h) ∧ (pruneOracleSet s h).oracles = s.oracles := by
   unfold pruneOracleSet
@@ -464,18 +476,32 @@ theorem prune_frame (s : State) (h : Nat) : OuterCore s (pruneOracleSet s h) ∧
     · exact ⟨OuterCore.refl s, rfl⟩
     · exact ⟨by constructor <;> rfl, rfl⟩
 
-/-- the crosschain end-blocker is total (given the code facts and the `uint64` range) and changes records only as
-`RecRel` allows -/
-theorem endBlock_rel (hcode : SlashCodeOk) (s : State) (h : Nat) (hf : PowerFits s) :
-    ∃ s', endBlock s h = .ok s' ∧ EndRel s h s' := by
+/-- whatever the crosschain end-blocker returns, it changed records only as `RecRel` allows -/
+theorem endBlock_rel (hcode : SlashCodeOk) (s : State) (h : Nat) (s' : State) (he : endBlock s h = .ok s') :
+    EndRel s h s' := by
   obtain ⟨s1, e1, r1⟩ := slashing_rel hcode s h
-  have hf1 : PowerFits s1 := powerFits_of_recs s s1 h r1.core.p r1.recs hf
-  obtain ⟨s2, e2, c2, o2⟩ := createOracleSetRequest_frame s1 h hf1
-  obtain ⟨c3, o3⟩ := prune_frame s2 h
-  refine ⟨pruneOracleSet s2 h, ?_, ?_⟩
-  · unfold endBlock; rw [e1]; simp only [e2]
-  · refine ⟨OuterCore.trans (OuterCore.trans r1.core.outer c2) c3, ?_⟩
+  unfold endBlock at he
+  rw [e1] at he
+  simp only at he
+  cases e2 : createOracleSetRequest s1 h with
+  | error e => rw [e2] at he; simp at he
+  | ok s2 =>
+    rw [e2] at he
+    simp only at he
+    injection he with he
+    subst he
+    obtain ⟨c2, o2⟩ := createOracleSetRequest_frame s1 h s2 e2
+    obtain ⟨c3, o3⟩ := prune_frame s2 h
+    refine ⟨OuterCore.trans (OuterCore.trans r1.core.outer c2) c3, ?_⟩
     obtain ⟨g, hg, hrel⟩ := r1.recs
     exact ⟨g, by rw [o3, o2, hg], hrel⟩
+
+/-- the crosschain end-blocker is total, given the code facts and the `uint64` range -/
+theorem endBlock_total (hcode : SlashCodeOk) (s : State) (h : Nat) (hf : PowerFits s) :
+    ∃ s', endBlock s h = .ok s' := by
+  obtain ⟨s1, e1, r1⟩ := slashing_rel hcode s h
+  have hf1 : PowerFits s1 := powerFits_of_recs s s1 h r1.core.p r1.recs hf
+  obtain ⟨s2, e2⟩ := createOracleSetRequest_total s1 h hf1
+  exact ⟨pruneOracleSet s2 h, by unfold endBlock; rw [e1]; simp only [e2]⟩
 
 end FxVerif.Proofs.C13
